@@ -27,12 +27,14 @@ def make_case(rng, special=None):
     kind = rng.choice(["c1", "c2", "c2", "c3", "polar", "spherical", "cyl", "cylp"])
     if special is not None:
         kind = "c2" if rng.random() < 0.8 else "c3"
+    # the unit of length: every length of the case is multiplied by it (cells far smaller / larger than 1)
+    unit = rng.choice([1.0, 1.0, 1.0, 0.02, 0.1, 25.0])
     if kind in ("c1", "c2", "c3"):
         dim = int(kind[1])
-        h0 = rng.choice([1.0, 0.5, 0.39])
+        h0 = rng.choice([1.0, 0.5, 0.39]) * unit
         h = [h0 * rng.choice([1.0, 1.0, 1.25, 1.5]) for _ in range(dim)]
         n = {1: [rng.randint(40, 90)], 2: [rng.randint(24, 44), rng.randint(24, 44)], 3: [rng.randint(16, 22) for _ in range(3)]}[dim]
-        lo = [rng.choice([0.0, -7.5, 3.0]) for _ in range(dim)]
+        lo = [rng.choice([0.0, -7.5, 3.0]) * unit for _ in range(dim)]
         per = [rng.random() < 0.6 for _ in range(dim)]
         if special == "corner":
             # fully periodic grid with unequal cell counts; the droplet sits around a corner of the box
@@ -85,13 +87,13 @@ def make_case(rng, special=None):
         return grid, drops
     if kind in ("polar", "spherical"):
         n = rng.randint(24, 48)
-        dr = rng.choice([1.0, 0.5, 0.25, 0.4])
+        dr = rng.choice([1.0, 0.5, 0.25, 0.4]) * unit
         grid = (PolarSymGrid if kind == "polar" else SphericalSymGrid)(n * dr, n)
         # (also the smallest resolvable droplets, 3 to 3.5 cells: with fine grids the fit region has as few support points as parameters)
         R = (rng.uniform(3.0, 3.5) if rng.random() < 0.4 else rng.uniform(3.0, n / 2.5)) * dr
         return grid, [DiffuseDroplet(np.zeros(grid.dim), R, rng.uniform(1.0, 2.0) * dr)]
     nr, nz = rng.randint(12, 18), rng.randint(28, 44)
-    dr, dz = rng.choice([1.0, 0.5]), rng.choice([1.0, 0.5])
+    dr, dz = rng.choice([1.0, 0.5]) * unit, rng.choice([1.0, 0.5])
     dz = dr * rng.choice([1.0, 1.25])
     grid = CylindricalSymGrid(nr * dr, [0, nz * dz], [nr, nz], periodic_z=(kind == "cylp"))
     hmax = max(dr, dz)
@@ -102,6 +104,10 @@ def make_case(rng, special=None):
     z = rng.uniform(R + 6 * w, nz * dz - R - 6 * w)  # away from the z boundary (known finding D12 for periodic z)
     return grid, [DiffuseDroplet(np.array([0.0, 0.0, z]), R, w)]
 
+
+# settings objects shared by all calls of a run (a user keeps ONE dict of solver settings)
+SHARED_DEFAULT: dict = {}
+SHARED_FITTED: dict = dict(vmin=None, vmax=None, adjust_values=True)
 
 # minimised past findings (see known_findings.json)
 CORPUS = [
@@ -141,8 +147,9 @@ def run_cases(ck: Check, n: int):
         if i >= 0:
             rule = rng.choice(["auto", "extrema", "mean", "otsu", (vmin + vmax) / 2])
             levels = rng.choice(["given", "fitted-given", "fitted-auto"]) if (a, b) != (1.0, 0.0) else rng.choice(["default", "given", "fitted-given", "fitted-auto"])
-        rargs = {"default": {}, "given": dict(vmin=vmin, vmax=vmax), "fitted-given": dict(vmin=vmin, vmax=vmax, adjust_values=True),
-                 "fitted-auto": dict(vmin=None, vmax=None, adjust_values=True)}[levels]
+        rargs = {"default": SHARED_DEFAULT, "given": dict(vmin=vmin, vmax=vmax), "fitted-given": dict(vmin=vmin, vmax=vmax, adjust_values=True),
+                 "fitted-auto": SHARED_FITTED}[levels]
+        # (not reset between calls: if an implementation writes into it, later calls start from what it left there)
         gname = type(grid).__name__
         case = {"grid": repr(grid), "droplets": [d.data.tolist() for d in drops], "intensity_map": [a, b], "threshold": repr(rule), "levels": levels}
         sig = {"grid": gname, "dim": grid.dim, "levels": levels, "threshold": repr(rule) if isinstance(rule, str) else "number"}
@@ -172,7 +179,7 @@ def run_cases(ck: Check, n: int):
                 # contrast of the image relative to its offset, and by how much the bound is exceeded
                 from scipy import ndimage as _nd
 
-                npts = int(np.sum(_nd.binary_dilation(d._get_phase_field(grid, dtype=bool), iterations=1 + int(2 * d.interface_width))))
+                npts = int(np.sum(_nd.binary_dilation(d._get_phase_field(grid, dtype=bool), iterations=1 + int(2 * (d.interface_width / float(grid.typical_discretization))))))
                 sig2 = {**sig, "check": "recovery", "fit_points_at_most_8": npts <= 8, "contrast_at_most_half_with_offset": bool(abs(a) <= 0.5 and b != 0),
                         "error_below_5e-4": bool(max(ep, er, ew) < 5e-4)}
                 ck.fail(f"recovery error position {ep:.2e} (rel. to R), radius {er:.2e}, width {ew:.2e} exceeds 1e-4 ({npts} support points in the fit region)", sig2,
@@ -205,7 +212,7 @@ def residual_correspondence(ck: Check):
         ia.optimize.least_squares = wrapper
         try:
             cand = DiffuseDroplet([8.0, 8.0], 3.5, 1.0)
-            mask = ia.ndimage.binary_dilation(cand._get_phase_field(grid, dtype=bool), iterations=1 + int(2 * cand.interface_width))
+            mask = ia.ndimage.binary_dilation(cand._get_phase_field(grid, dtype=bool), iterations=1 + int(2 * (cand.interface_width / float(grid.typical_discretization))))
             ia.refine_droplet(img, cand.copy(), vmin=vmin, vmax=vmax, adjust_values=adjust)
         finally:
             ia.optimize.least_squares = orig
